@@ -104,7 +104,7 @@ impl<'a> BinaryInput for DeserializationContext<'a> {
             abs: self.current.start.wrapping_add(self.current.pos),
             len: 1,
         });
-        if self.current.pos == self.current.end {
+        if self.current.start + self.current.pos >= self.current.end {
             Err(Error::InputEndedUnexpectedly)
         } else {
             self.current.pos += 1;
@@ -118,7 +118,8 @@ impl<'a> BinaryInput for DeserializationContext<'a> {
             abs: self.current.start.wrapping_add(self.current.pos),
             len: count,
         });
-        if !matches!(self.current.pos.checked_add(count), Some(end) if end <= self.current.end) {
+        if !matches!((self.current.start + self.current.pos).checked_add(count), Some(end) if end <= self.current.end)
+        {
             Err(Error::InputEndedUnexpectedly)
         } else {
             let start = self.current.start + self.current.pos;
@@ -133,7 +134,8 @@ impl<'a> BinaryInput for DeserializationContext<'a> {
             abs: self.current.start.wrapping_add(self.current.pos),
             len: count,
         });
-        if !matches!(self.current.pos.checked_add(count), Some(end) if end <= self.current.end) {
+        if !matches!((self.current.start + self.current.pos).checked_add(count), Some(end) if end <= self.current.end)
+        {
             Err(Error::InputEndedUnexpectedly)
         } else {
             self.current.pos += count;
